@@ -3,6 +3,7 @@ import DashLive.Lemmas.Boxes.Basic
 import DashLive.Lemmas.Boxes.Frag
 import DashLive.Lemmas.Boxes.Cenc
 import DashLive.Lemmas.Boxes.Index
+import DashLive.Lemmas.Boxes.Audio
 /-! Lemmas about box headers, the payload dispatch and box trees (`Model/Box.lean`). -/
 namespace DashLive.Boxes
 open DashLive.Bytes
@@ -126,6 +127,7 @@ theorem decPayload_encPayload (ctx : SencCtx) (k : Kind) (p : Payload) (h : Payl
     | simp only [decPayload, encPayload, decTrex_encTrex _ h, Option.map_some]
     | simp only [decPayload, encPayload, decSidx_encSidx _ h, Option.map_some]
     | simp only [decPayload, encPayload, decEmsg_encEmsg _ h, Option.map_some]
+    | simp only [decPayload, encPayload, decDec3_encDec3 _ h, Option.map_some]
     | simp only [decPayload, encPayload, decSenc_encSenc _ _ h, Option.map_some]
     | simp only [decPayload, encPayload]
 
